@@ -372,10 +372,10 @@ class World:
             self.recs.append(r)
             r["arr"] = {}
             d1 = synth(r["kind"], 2500, seed + 7 * k + 1)
-            pts = d0[:5].copy()
-            if r["transformed"]:
-                pts = d0[:5].copy()
-            for role, a in (("data0", d0), ("data1", d1), ("points", pts), ("probs", np.array([0.1, 0.35, 0.5, 0.8, 0.97])),
+            pts = d0[:6].copy()
+            if not r["transformed"]:
+                pts[5, -1] = 0.0        # a point on the edge of the support (in-place masking would show)
+            for role, a in (("data0", d0), ("data1", d1), ("points", pts), ("probs", np.array([0.1, 0.35, 0.5, 0.8, 0.97, 0.6])),
                             ("sample", d1[:2000].copy()), ("limits", [tuple(t) for t in LIMITS[r["kind"]]]),
                             ("deltas", list(DELTAS[r["kind"]])),
                             ("semantics", {"names": ["Var %d" % i for i in range(r["n_dim"])], "symbols": ["X_%d" % i for i in range(r["n_dim"])],
